@@ -12,6 +12,7 @@ import (
 type ruleFn func(c *Check, p *Prog)
 
 var rules = map[string]ruleFn{
+	"C01": ruleC01,
 	"C07": ruleC07,
 	"C08": ruleC08,
 	"C09": ruleC09,
